@@ -93,6 +93,33 @@ CHECKS = {
         "level_note": "trusts harness/ref/check.go; the run-time consequence is checked for let and loop variables only (a declared param may be absent through data=\"$map\")",
         "assumptions": ["data=\"all\" calls whose callee requires a param the caller cannot forward are not generated (the statement does not decide them)"],
     },
+    "C08": {
+        "test": "TestC08", "level": "exploration", "crashy": True,
+        "quick": {"shards": 8, "checks": 250, "timeout": 900},
+        "thorough": {"shards": 16, "checks": 4000, "timeout": 3400},
+        "rule": "histories of 4-25 (thorough 60) operations over one compiled bundle: renders of any template with its own data or with data of "
+                "arbitrary shape (failing renders), renders with a message bundle, JavaScript generation with and without the bundle, and "
+                "switches between five configurations of the process-wide registries (no / one / two obligatory print directives, a cancelling "
+                "one, an unknown one; a custom function and directive installed); non-trivial = the history repeats a (template, data, "
+                "configuration) triple after other operations",
+        "technique": "stateful property-based testing (rapid) with history invariants: deep structural digests of registry, data, $ij and message bundle unchanged after every step; repeated operations give the first result",
+        "level_text": PBT + "every step re-digests the compiled bundle and the caller's data reflectively (unexported fields included) and compares repeated renders byte for byte",
+        "level_note": "the digest walks everything reachable from the registry, data maps, $ij and bundle; the process-wide registries are restored after each case",
+        "assumptions": ["single-threaded histories (concurrency is C09)"],
+    },
+    "C09": {
+        "test": "TestC09", "level": "exploration", "crashy": True, "race": True,
+        "quick": {"shards": 4, "checks": 1, "timeout": 900},
+        "thorough": {"shards": 8, "checks": 1, "timeout": 3400},
+        "rule": "per shard 4 (thorough 12) generated bundles x 3 (thorough 6) configurations of G in {2..16} goroutines and GOMAXPROCS in {1..16} x 200 "
+                "(thorough 1200) rounds per goroutine mixing renders of shared templates over shared data maps / $ij / message bundle, "
+                "JavaScript generation and compilation of an independent bundle, under the race detector; every bundle is non-trivial "
+                "(>= 2 goroutines render the same template over the same data map); evaluations counts bundles, counters report goroutine-rounds",
+        "technique": "randomised concurrency testing: generated bundles exercised from G goroutines under go's race detector, outputs compared with the sequential run",
+        "level_text": "exploration over the interleavings the Go scheduler produces; a race needing a rare interleaving can be missed - the weakest level among the checks",
+        "level_note": "race detector reports are taken as sound without reproduction; output mismatches are confirmed by replaying the bundle for 3000 rounds",
+        "assumptions": ["schedules are not controlled; coverage is by repetition under several GOMAXPROCS values"],
+    },
     "C12": {
         "test": "TestC12", "level": "fault_enumeration",
         "quick": {"shards": 8, "checks": 250, "timeout": 900},
@@ -104,6 +131,20 @@ CHECKS = {
         "level_text": "exhaustive fault enumeration per program over generated programs: error surfaced, accepted bytes are a prefix, nil only if everything was accepted",
         "level_note": "the fault-free output is the implementation's own (metamorphic); programs come from the C02 generator",
         "assumptions": ["for a transient failure only the bytes accepted before the failure are required to be a prefix"],
+    },
+    "C13": {
+        "test": "TestC13", "level": "exploration",
+        "quick": {"shards": 8, "checks": 120, "timeout": 900},
+        "thorough": {"shards": 16, "checks": 2500, "timeout": 3400},
+        "rule": "bundles of 1-3 files with many cross-file calls (ES6 imports), messages with colliding placeholder names, map literals, optionally one "
+                "injected compile error; each compiled 12 (thorough 30) more times in-process, under every permutation of file order (exhaustive up "
+                "to 4 files) and, for a deterministic share of cases, in 2 child processes; the artefact compared is accept/reject + error text + "
+                "message ids and placeholder names + rendered outputs + JavaScript per file x {ES5, ES6} x {no bundle, bundle}; non-trivial = a "
+                "file with >= 2 ES6 imports, or suffixed placeholder names, or a map literal with >= 2 keys",
+        "technique": "property-based testing (rapid) with a repetition / process / permutation metamorphic oracle on a digest of every compile artefact",
+        "level_text": PBT + "each bundle's complete artefact must be byte-identical across repetitions, processes and file orders",
+        "level_note": "in-process repetition relies on Go re-randomising map iteration per loop; child processes re-run the same test binary",
+        "assumptions": ["with two or more independent injected errors the error text may depend on file order: at most one error is injected"],
     },
     "C18": {
         "test": "TestC18", "level": "exploration", "crashy": True,
